@@ -609,6 +609,9 @@ func (h *hist) finish(out *histOut, sc *script, recs []rec, hk *hookState) {
 		o.fill()
 		out.lops = append(out.lops, o)
 		out.ops[kindName[r.kind]+"="+resName[r.res]]++
+		if r.res == rOtherErr {
+			out.ops["othererr:"+core.Trunc(r.err, 90)]++
+		}
 		switch r.kind {
 		case kRtClose:
 			rtCodes[r.spec.X] = true
